@@ -25,7 +25,7 @@ EXPLANATION = ("nlist.pyx bins atoms with numpy.digitize/unique and grows typed 
 ASSUMPTIONS = ["oracle of the bounded family: O(N^2) periodic distances from dmag (contract proved in C02)",
                "block proofs: table rows of capacity 2 with counts 0..2 and growth steps 1, 2 (ids symbolic integers; int64 wrap-around not modelled); grids up to 3x3x3 for the stencil",
                "np.digitize / np.arange / np.unique semantics (binning of atoms and ghosts) are not modelled: composition of the blocks into end-to-end completeness is bounded only"]
-UNCOVERED = ["ghost-image generation and binning (np.digitize) -- bounded only", "bin-table growth loop (maxatomsperbin)", "configurations outside the bounded family"]
+UNCOVERED = ["ghost-image generation and binning (np.digitize) -- bounded only", "configurations outside the bounded family"]
 
 NLF = 'atomman/core/nlist.pyx'
 NLPY = 'atomman/core/NeighborList.py'
@@ -96,12 +96,20 @@ def configs(am, np, rng, tier):
                 pos = ((pos - o).dot(np.linalg.inv(V)) % 1.0).dot(V) + o
             system = am.System(atoms=am.Atoms(pos=pos.copy()), box=am.Box(vects=V, origin=o), pbc=pbc)
             yield '%s,pbc=%s,%s,n=%d,cutoff=%.2fw,rep=%d' % (cname, ''.join('p' if p else 'f' for p in pbc), kind, len(pos), cf, rep), system, cutoff
+    # crowded bins: more atoms in one cutoff-sized bin than the initial bin capacity (40) and than one capacity increment (10), so that the bin table is re-allocated (twice)
+    for (cname, V, o), pbc, n in itertools.product(cells[:3], [(False, False, False), (True, False, True), (True, True, True)], [45, 63]):
+        s = 0.5 + rng.uniform(-0.04, 0.04, (n, 3))
+        pos = s.dot(V) + o
+        widths = [abs(np.linalg.det(V)) / np.linalg.norm(np.cross(V[(k + 1) % 3], V[(k + 2) % 3])) for k in range(3)]
+        cutoff = 0.45 * min(widths)
+        system = am.System(atoms=am.Atoms(pos=pos.copy()), box=am.Box(vects=V, origin=o), pbc=pbc)
+        yield '%s,pbc=%s,crowded_bin,n=%d,cutoff=0.45w' % (cname, ''.join('p' if p else 'f' for p in pbc), n), system, cutoff
 
 
 @group('nlist.exactness', kind='bounded', files=[NLF, NLPY, DMF], functions=['nlist.nlist', 'NeighborList.build', 'NeighborList.dump', 'NeighborList.load'],
        clause='atom j is listed for atom i exactly when j != i and their periodic distance is below the cutoff; rows are sorted ascending, duplicate-free, symmetric, without self entries, '
               'coordination = row length; the result does not depend on initialsize/deltasize and survives dump/load',
-       rule='5 cells (orthogonal/tilted/hexagonal/triclinic, non-zero origins) x 8 pbc x {sparse, dense, clustered, on faces, on bin edges} x atom counts x cutoffs {0.3, 0.9, 1.7} x smallest cell width '
+       rule='5 cells (orthogonal/tilted/hexagonal/triclinic, non-zero origins) x 8 pbc x {sparse, dense, clustered, on faces, on bin edges, crowded bins (45 and 63 atoms in one bin: bin-table re-allocation)} x atom counts x cutoffs {0.3, 0.9, 1.7} x smallest cell width '
             'x storage sizes {(20,10), (1,1), (2,3)}; oracle: O(N^2) periodic distances (27 images, C02); distinct by tuple; non-trivial = at least one neighbour pair')
 def exactness(tier, seed):
     from pyvc.native import atomman
@@ -211,6 +219,15 @@ def _replay_nlist(stem, vals):
                         msgs.append('row %d is %r, brute force gives %r (pbc %r, initialsize %d, deltasize %d)' % (i, row, want[i], pbc, init, delta))
                 if msgs:
                     break
+        # a crowded bin (more atoms than the initial bin capacity)
+        box = am.Box.cubic(10.0)
+        pos = 5.0 + rng.uniform(-0.4, 0.4, (60, 3))
+        s = am.System(atoms=am.Atoms(pos=pos), box=box, pbc=(False, False, False))
+        nl = am.NeighborList(system=s, cutoff=4.0)
+        want = oracle(am, np, s, 4.0)
+        bad = [i for i in range(60) if list(nl[i]) != want[i]]
+        if bad:
+            msgs.append('60 atoms in one bin: rows %r differ from brute force (atom %d lists %d neighbours, expected %d)' % (bad[:5], bad[0], len(nl[bad[0]]), len(want[bad[0]])))
     except Exception as e:
         msgs.append('raised %s: %s' % (type(e).__name__, e))
     return (len(msgs) > 0, '; '.join(msgs[:3]) if msgs else 'float replay of the neighbour-list contracts found no disagreement')
@@ -428,3 +445,54 @@ def binning_lemma(E, L):
     text = open(_os.path.join(REPO, NLF), encoding='utf-8').read()
     defs = [l.strip() for l in text.split('\n') if l.strip().startswith('binsize =') or l.strip().startswith('binsize=')]
     E.prove('binning.binsize_is_cutoff', defs == ['binsize = cutoff'])
+
+
+def _is_binfill_for(n):
+    return isinstance(n, _ast.For) and isinstance(n.target, _ast.Name) and n.target.id == 'n' and 'atomindex' in _ast.unparse(n.iter)
+
+
+@group('nlist.bin_filling_block', files=[NLF], functions=['nlist.nlist (block: filling the bin table)'],
+       clause='the loop that files atoms and ghost images into the bin table, extracted mechanically and executed with symbolic atom ids and a small initial bin capacity (3, so that the '
+              'table is re-allocated, also twice): afterwards every bin holds its count and exactly the ids assigned to it, in the order of assignment, the largest count is reported, '
+              'and each re-allocation raises the capacity by 10 keeping every count and id of every bin', replay=_replay_nlist, timeout_ms=20000)
+def bin_filling(E, L):
+    block, info = _extract(L, NLF, 'nlist', _is_binfill_for)
+    E.prove('binfill.block_found', info['last_line'] > info['first_line'])
+    mod = L.load(NLF)
+    first = True
+    for assign in ([0, 1, 0, 0, 1, 0], [0] * 14, [1, 0, 1, 1], [0, 0, 1]):
+        natoms = len(assign)
+        ids = [E.int('id%d_%d' % (natoms, k)) for k in range(natoms)]
+        if first:
+            E.canary('binfill.canary', ids[0] == ids[1])
+            first = False
+        cap = 3
+        bins = _np.zeros((2, 1, 1, cap + 1), dtype=object)
+        xyz = _np.array([[a, 0, 0] for a in assign])
+        real_np = mod.np
+
+        class _NPz(_ObjAlloc):
+            def zeros(self, shape, dtype=None, **kw):
+                r = _np.zeros(shape, dtype=object)
+                return r.view(snp.SymArray)
+        mod.np = _NPz()
+        try:
+            out = block(dict(atomindex=snp.asarray(_np.array(ids, dtype=object)), xyzindex=xyz, xyzbins=bins.view(snp.SymArray), maxatomsperbin=cap, maxc=0,
+                             numxbins=2, numybins=1, numzbins=1))
+        finally:
+            mod.np = real_np
+        tb = out['xyzbins']
+        tag = 'binfill[%s]' % ''.join(map(str, assign))
+        want = {0: [ids[k] for k in range(natoms) if assign[k] == 0], 1: [ids[k] for k in range(natoms) if assign[k] == 1]}
+        big = max(len(want[0]), len(want[1]))
+        grows = 0
+        c_ = cap
+        while big >= c_:
+            c_ += 10
+            grows += 1
+        E.prove(tag + '.capacity', out['maxatomsperbin'] == cap + 10 * grows and tb.shape == (2, 1, 1, cap + 10 * grows + 1))
+        E.prove(tag + '.largest_count', int(out['maxc']) == big)
+        for bq in (0, 1):
+            E.prove(tag + '.count[%d]' % bq, int(tb[bq, 0, 0, 0]) == len(want[bq]))
+            for j, idv in enumerate(want[bq]):
+                E.prove(tag + '.entry[%d,%d]' % (bq, j), tb[bq, 0, 0, j + 1] == idv)
